@@ -47,6 +47,13 @@ def close(a, b, rtol, atol=0.0):
 def check(case):
     state = gen.build_state(case)
     r = check_round(case, state)
+    # history without any parameter change: other public read-only operations (metrics, sampling, observables, rotation) in
+    # between must not disturb what the state reports afterwards
+    interleave_readonly(case, state)
+    try:
+        check_round(case, state)
+    except PropertyViolation as v:
+        raise PropertyViolation("after-readonly-ops:" + v.bucket, "after other read-only operations on the same object: " + v.message, v.detail)
     if case.get("am2"):
         # same object, parameters updated in place (as an optimizer or load() does): everything must hold again
         gen.set_net(state.rbm_am, case["am2"])
@@ -56,6 +63,28 @@ def check(case):
         except PropertyViolation as v:
             raise PropertyViolation("after-inplace-update:" + v.bucket, "after an in-place parameter update of the same object: " + v.message, v.detail)
     return r
+
+
+def interleave_readonly(case, state):
+    from qucumber.observables import SigmaX, SigmaZ
+    from qucumber.utils import training_statistics as TS, unitaries as UN
+    n = case["n"]
+    space = state.generate_hilbert_space()
+    D = 2 ** n
+    tgt = torch.zeros(2, D, dtype=torch.double)
+    tgt[0] = 1 / D ** 0.5
+    which = case["row"] % 4
+    if which in (0, 1):
+        TS.fidelity(state, tgt, space)
+    if which in (1, 2):
+        TS.KL(state, tgt, space)
+        TS.NLL(state, space[case["idx"]], space)
+    if which in (2, 3):
+        state.sample(2, num_samples=3)
+        SigmaX().apply(state, space[case["idx"]])
+        SigmaZ().statistics_from_samples(state, space[case["idx"]])
+    if which in (0, 3):
+        UN.rotate_psi(state, "X" * n, space, unitaries=UN.create_dict())
 
 
 def check_round(case, state):
